@@ -327,6 +327,10 @@ func genClauseSweep(r *rand.Rand, facts *c19Facts, tier string) []*Probe {
 		add("USER-FUNCTION", pre+"DECLARE f FUNCTION (@a, @b DEFAULT "+v+") AS BEGIN RETURN @a + @b; END; SELECT f("+v+"), f("+v+", "+v+"), f()")
 		add("USER-AGGREGATE", pre+"DECLARE g AGGREGATE (c, @p DEFAULT "+v+") AS BEGIN VAR @v, @s := 0; WHILE @v IN c DO @s := @s + @v; END WHILE; RETURN @s; END; SELECT g(a), g(a, "+v+") FROM t; SELECT g(a, "+v+") OVER (ORDER BY a) FROM t")
 		add("RECURSION", pre+"SET @@LIMIT_RECURSION TO "+v+"; WITH RECURSIVE r (n) AS (SELECT 1 UNION ALL SELECT n + 1 FROM r WHERE n < 20) SELECT COUNT(*) FROM r")
+		if v == "0" || v == "1" || v == "2" || v == "'5'" || v == "0.5" {
+			// a recursion that never ends by itself must be ended by the limit, whatever (small) limit is given
+			add("RECURSION", pre+"SET @@LIMIT_RECURSION TO "+v+"; WITH RECURSIVE r (n) AS (SELECT 1 UNION ALL SELECT n + 1 FROM r) SELECT COUNT(*) FROM r")
+		}
 		add("INSERT", pre+"INSERT INTO t VALUES ("+v+", "+v+", "+v+"); SELECT * FROM t; ROLLBACK")
 		add("INSERT", pre+"INSERT INTO t (a) VALUES ("+v+"), ("+v+", "+v+"); ROLLBACK")
 		add("UPDATE", pre+"UPDATE t SET a = "+v+", b = "+v+" WHERE c = "+v+" OR TRUE; SELECT * FROM t; ROLLBACK")
@@ -400,6 +404,9 @@ func genCLISweep(r *rand.Rand, tier string) []*Probe {
 	}
 	flags := []string{"--repository", "--timezone", "--datetime-format", "--wait-timeout", "--source", "--import-format", "--delimiter", "--delimiter-positions", "--json-query", "--encoding", "--out", "--format", "--write-encoding", "--write-delimiter", "--write-delimiter-positions", "--line-break", "--json-escape", "--limit-recursion", "--cpu"}
 	bools := []string{"--ansi-quotes", "--strict-equal", "--allow-uneven-fields", "--no-header", "--without-null", "--without-header", "--enclose-all", "--pretty-print", "--scientific-notation", "--strip-ending-line-break", "--east-asian-encoding", "--count-diacritical-sign", "--count-format-code", "--color", "--quiet", "--stats"}
+	for _, v := range []string{"0", "1", "3", "1000"} {
+		ps = append(ps, sqlProbe("cli", "--limit-recursion", "WITH RECURSIVE r (n) AS (SELECT 1 UNION ALL SELECT n + 1 FROM r) SELECT COUNT(*) FROM r", "--limit-recursion", v))
+	}
 	for _, f := range flags {
 		for _, v := range vals {
 			p := sqlProbe("cli", f, "SELECT * FROM t", f, v)
@@ -644,6 +651,22 @@ func genLoaderFuzz(r *rand.Rand, n int) []*Probe {
 			kind = "mutated"
 			seeds := c19SeedDocs[f]
 			data = mutateBytes(r, []byte(seeds[r.Intn(len(seeds))]))
+		case k == 4 && (f == "CSV" || f == "TSV"):
+			// records of very different lengths (--allow-uneven-fields pads every short record to the header's length)
+			kind = "ragged"
+			sep := map[string]string{"CSV": ",", "TSV": "\t"}[f]
+			var b bytes.Buffer
+			for i, n := 0, 2+r.Intn(6); i < n; i++ {
+				m := r.Intn(7)
+				for j := 0; j < m; j++ {
+					if j > 0 {
+						b.WriteString(sep)
+					}
+					b.WriteString([]string{"a", "1", "", "x y", "\"q\""}[r.Intn(5)])
+				}
+				b.WriteString("\n")
+			}
+			data = b.Bytes()
 		case k < 6:
 			kind = "structured"
 			switch f {
@@ -714,6 +737,9 @@ func genLoaderFuzz(r *rand.Rand, n int) []*Probe {
 			}
 		}
 		noHeader, uneven, withoutNull := r.Intn(3) == 0, r.Intn(3) == 0, r.Intn(3) == 0
+		if kind == "ragged" && r.Intn(4) != 0 {
+			uneven = true
+		}
 		p := &Probe{Group: "loader", Hint: f}
 		outFmt := "CSV"
 		switch r.Intn(10) {
